@@ -1,4 +1,7 @@
 pub mod c24;
+pub mod c27;
+pub mod c28;
+pub mod c29;
 pub mod c41;
 
 use crate::core::CheckDef;
@@ -6,9 +9,12 @@ use crate::core::CheckDef;
 pub fn lookup(id: &str) -> Option<CheckDef> {
     Some(match id {
         "C24" => c24::def(),
+        "C27" => c27::def(),
+        "C28" => c28::def(),
+        "C29" => c29::def(),
         "C41" => c41::def(),
         _ => return None,
     })
 }
 
-pub const ALL: &[&str] = &["C24", "C41"];
+pub const ALL: &[&str] = &["C24", "C27", "C28", "C29", "C41"];
